@@ -23,7 +23,7 @@ def gen_fil(rng):
     return dict(nchans=nchans, fchans=fchans, f_shift=f_shift, tchans_file=T, tchans=rng.choice([None, None, rng.randint(1, T)]),
                 df=rng.choice([2.7939677238464355, 2.835503418452676, 1.0, 2.0, 91.552734375, rng.uniform(0.5, 500)]), dt=rng.choice([18.253611008, 1.0]),
                 fch1=rng.choice([6000.0e6, 1420.405752e6, 8421.38671875e6, rng.uniform(1e9, 9e9)]), ascending=rng.random() < 0.5,
-                split_fil=rng.random() < 0.3, consumers=rng.random() < 0.15)
+                split_fil=rng.random() < 0.3, consumers=rng.random() < 0.15, presplit=rng.random() < 0.5)
 
 
 def gen_array(rng):
@@ -76,6 +76,8 @@ def run(ctx):
             want_f = r["file_fch1"] + i * s * r["file_foff"]
             if abs(p["fch1"] - want_f) > abs(r["file_foff"]) * 1e-3:
                 ctx.impl_violation("piece-frequency", "piece %d frequency axis starts at %r MHz, its first channel is at %r MHz" % (i, p["fch1"], want_f), c); break
+        for key, msg in r.get("fails", []):
+            ctx.impl_violation(key, msg, c)
         sf = r.get("split_fil")
         if sf is not None:
             if "err" in sf:
